@@ -91,7 +91,7 @@ def read_records(root: Path) -> List[Dict[str, Any]]:
 
 
 def run_traced(nodes: List[Dict[str, Any]], data: Any, ctx: Dict[str, Any], *, detail: str = "hash",
-               mode: str = "file", keep: bool = False, orchestrator=None) -> Dict[str, Any]:
+               mode: str = "file", keep: bool = False, orchestrator=None, scramble: bool = False) -> Dict[str, Any]:
     """Execute with tracing; returns the observation of seams.run_nodes plus
     records, handles_closed, t0/t1 (epoch seconds bracketing the call)."""
     from .seams import run_nodes
@@ -100,7 +100,7 @@ def run_traced(nodes: List[Dict[str, Any]], data: Any, ctx: Dict[str, Any], *, d
     target = tmp / "trace.ser.jsonl" if mode == "file" else tmp / "traces"
     drv = make_driver(str(target), detail)
     t0 = time.time()
-    obs = run_nodes(nodes, data, ctx, trace=drv, orchestrator=orchestrator)
+    obs = run_nodes(nodes, data, ctx, trace=drv, orchestrator=orchestrator, scramble=scramble)
     t1 = time.time()
     obs["t0"], obs["t1"] = t0, t1
     obs["driver_calls"] = list(drv.calls)
